@@ -13,7 +13,7 @@ class LimitedStringIO(StringIO):
         self,
         limit: int,
         initial_value: Optional[str] = None,
-        newline: Optional[str] = None,
+        newline: Optional[str] = "\n",
     ) -> None:
         super().__init__(initial_value, newline)
         self.limit = limit
